@@ -608,7 +608,9 @@ class fcfs:
                "region_map(G, R, len(self.entries), len(R)) and painted_g(result.structure, R, O, G)"]
     ensures_labels = {0: "length", 1: "sequence", 2: "lossless", 3: "fresh", 4: "levels-are-proper-on-the-stems",
                       5: "levels-are-the-first-come-first-served-levels", 6: "painted-with-those-levels"}
-    ghost_exit = ["let O = orders", "let G = __make_dot_bracket_G"]
+    ghost_exit = ["let O = orders", "let G = __make_dot_bracket_G",
+                  # an earlier crossing stem takes its own level: FC(a) differs from it
+                  "forall a, b | assert implies(0 <= b and b < a and a < len(R) and crossing(R[a][0], R[a][1], R[b][0], R[b][1]), taken(a, FC(b)) and FC(a) != FC(b))"]
     raises = []
     modifies = []
     locals = {}
@@ -617,11 +619,16 @@ class fcfs:
             "len(orders) == len(R)",
             "forall(lambda a: implies(0 <= a and a < i and a < len(R), orders[a] == FC(a)))",
             "forall(lambda a: implies(i <= a and a < len(R), orders[a] == 0))"],
-        1: ["len(available) == 30", "len(orders) == len(R)",
-            "forall(lambda lv: implies(0 <= lv and lv < 30, available[lv] == (not exists(lambda b: 0 <= b and b < j and crossing(k, l, R[b][0], R[b][1]) and orders[b] == lv))))",
+        # ghost blk[lv] = an earlier crossing stem sitting on level lv, or -1 (existence-free form of "level lv is taken")
+        1: ["len(available) == 30 and len(blk) == 30", "len(orders) == len(R)",
+            "forall(lambda lv: implies(0 <= lv and lv < 30, available[lv] == (blk[lv] == 0 - 1)))",
+            "forall(lambda lv: implies(0 <= lv and lv < 30 and blk[lv] != 0 - 1, 0 <= blk[lv] and blk[lv] < j and crossing(k, l, R[blk[lv]][0], R[blk[lv]][1]) and orders[blk[lv]] == lv))",
+            "forall(lambda b: implies(0 <= b and b < j and crossing(k, l, R[b][0], R[b][1]), 0 <= orders[b] and orders[b] < 30 and blk[orders[b]] != 0 - 1))",
             ],
     }
     ghost = [
+        {"when": "after", "at": "available = [", "loop": 0, "label": "blk0", "do": ["let blk = fill(30, 0 - 1)"]},
+        {"when": "after", "at": "available[orders[j]] =", "loop": 1, "label": "blk", "do": ["let blk = upd(blk, orders[j], j)"]},
         {"when": "after", "at": "regions =", "do": ["let R = regions", "let GS = __stems_entries_GS", "use FC_definition(R)", "use levels30_definition(self, R)"]},
         {"when": "before", "at": "order = next(", "label": "level-free", "do": ["assert 0 <= FC(i) and FC(i) < 30 and available[FC(i)]",
                 "forall lv | assert implies(0 <= lv and lv < FC(i), taken(i, lv) and not available[lv])"]},
